@@ -9,8 +9,12 @@ from .common import MachineryError
 
 class _D(dict):
     def __missing__(self, k):
-        if k == 'kf4':
+        if k in ('kf4', 'peertls', 'creds', 'peerauth'):
             return 'FALSE'
+        if k == 'tls':
+            return '"off"'
+        if k == 'xinv':
+            return ''
         raise KeyError(k)
 
 
@@ -24,6 +28,10 @@ CONSTANTS
   KF_RcptBeforeMail = %(kf4)s
   KF_FlushOutside = %(kf1)s
   KF_FirstRcptClass = %(kf2)s
+  Tls = %(tls)s
+  PeerTls = %(peertls)s
+  Creds = %(creds)s
+  PeerAuth = %(peerauth)s
 INVARIANT C11_TotalResult
 INVARIANT C11_DeliveredImpliesAccepted
 INVARIANT C11_Class
@@ -32,6 +40,8 @@ INVARIANT C11_MailVerdict
 INVARIANT C11_NoSpuriousFailure
 INVARIANT C14_Bounded
 INVARIANT C10_QueueDrained
+INVARIANT X_AuthOnlyWhenOffered
+%(xinv)s
 %(emit)s
 CHECK_DEADLOCK FALSE
 """
@@ -74,20 +84,38 @@ def parse_beh(out):
     return behs
 
 
-def relayclient(wd, nr, lmtp, pipe, kf_first, nmsg=1):
+def _b(x):
+    return 'TRUE' if x else 'FALSE'
+
+
+def hs_consts(hs):
+    """handshake configuration {tls: off|req|imm, peertls, creds, peerauth} as cfg constants"""
+    hs = hs or {}
+    return dict(tls='"%s"' % hs.get('tls', 'off'), peertls=_b(hs.get('peertls')), creds=_b(hs.get('creds')), peerauth=_b(hs.get('peerauth')))
+
+
+def hs_name(hs):
+    if not hs:
+        return ''
+    return ' tls=%s%s%s%s' % (hs.get('tls', 'off'), ' STARTTLS offered' if hs.get('peertls') else '', ' credentials' if hs.get('creds') else '',
+                              ' AUTH offered' if hs.get('peerauth') else '')
+
+
+def relayclient(wd, nr, lmtp, pipe, kf_first, nmsg=1, hs=None):
     """all complete behaviours of spec/RelayClient.tla for one configuration; also the design check itself"""
-    cfgp = os.path.join(wd, 'rc_%d_%s_%s_%d.cfg' % (nr, lmtp, pipe, nmsg))
+    tag = ''.join('%s' % str(v)[0] for v in (hs or {}).values())
+    cfgp = os.path.join(wd, 'rc_%d_%s_%s_%d%s.cfg' % (nr, lmtp, pipe, nmsg, '_' + (hs or {}).get('tls', '') + tag if hs else ''))
     with open(cfgp, 'w') as f:
         f.write(RC_CFG % dict(nr=nr, lmtp='TRUE' if lmtp else 'FALSE', pipe='TRUE' if pipe else 'FALSE', kf1='FALSE',
                               kf2='TRUE' if kf_first else 'FALSE', emit='INVARIANT Emit', nmsg=nmsg, kf3='FALSE',
-                              own='' if kf_first else 'INVARIANT C11_OwnClass'))
+                              own='' if kf_first else 'INVARIANT C11_OwnClass', **hs_consts(hs)))
     r = tlc.run_mc('RelayClient', cfgp, workers=1, timeout=1800)
     if not r['ok']:
         raise MachineryError('RelayClient %s failed: %s\n%s' % (cfgp, r['error'], r['out'][-1500:]))
     behs = parse_beh(r['out'])
     if not behs:
         raise MachineryError('RelayClient %s printed no behaviours' % cfgp)
-    return behs, {'name': 'RelayClient NRcpt=%d lmtp=%s pipelining=%s messages=%d (every downstream script; behaviours emitted for replay)' % (nr, lmtp, pipe, nmsg),
+    return behs, {'name': 'RelayClient NRcpt=%d lmtp=%s pipelining=%s messages=%d%s (every downstream script; behaviours emitted for replay)' % (nr, lmtp, pipe, nmsg, hs_name(hs)),
                   'states': r['states'], 'distinct': r['distinct'], 'depth': r['depth'], 'wall_s': r['wall_s'], 'behaviours': len(behs)}
 
 
